@@ -900,6 +900,44 @@ func codecRoundTrips(r *lib.Run, idx int, sc *shapeCase) {
 			r.Violation("codec:BlockTransactions:"+d.ClassPath+":"+d.Kind, idx, "BlockTransactionsSerializer round trip: "+d.String(), d)
 		}
 	}
+	// values built first, used afterwards: every BlockTransactions value of the scenario is
+	// encoded before any of them is decoded or serialised (what a caller does that prepares
+	// several blocks and writes them in one batch; the transaction-layout migration runs four
+	// such builders at once). Each value must still describe its own block - an encoder that
+	// hands out a buffer it re-uses for the next value does not.
+	{
+		var bts []core.BlockTransactions
+		var owners []*shapedBlock
+		for _, b := range sc.Blocks {
+			bt, err := core.NewBlockTransactions(b.Txs, b.Receipts)
+			if err != nil {
+				continue // reported above
+			}
+			bts = append(bts, bt)
+			owners = append(owners, b)
+		}
+		for i := range bts {
+			b := owners[i]
+			r.Eval(1)
+			r.Count("block_blobs_decoded_after_later_blobs_were_built", 1)
+			txs, e1 := bts[i].Transactions().All()
+			rcs, e2 := bts[i].Receipts().All()
+			if e1 != nil || e2 != nil {
+				r.Violation("codec:BlockTransactions:value-damaged-by-building-a-later-value:error", idx,
+					fmt.Sprintf("block blob %d of %d no longer decodes after the later ones were built: %v %v", i, len(bts), e1, e2), b.Desc)
+				break
+			}
+			d := diff("Transactions", nonNil(b.Txs), txs)
+			if d == nil {
+				d = diff("Receipts", nonNil(b.Receipts), rcs)
+			}
+			if d != nil {
+				r.Violation("codec:BlockTransactions:value-damaged-by-building-a-later-value", idx,
+					fmt.Sprintf("block blob %d of %d built by NewBlockTransactions describes other content after the later ones were built: %s", i, len(bts), d.String()), d)
+				break
+			}
+		}
+	}
 	for _, cl := range sc.Classes {
 		roundTrip[core.ClassDefinition](r, idx, "ClassDefinition", cl.Def.Class)
 		r.Eval(1)
